@@ -6,3 +6,5 @@ pub mod lexer;
 pub mod resolver;
 pub mod decode;
 pub mod decimal;
+pub mod suffix;
+pub mod status;
